@@ -98,11 +98,19 @@ def streams(tier, rng, P, only=None, cases=None):
             wrap = rng.choice(["%s", "%s", "[2 %s r8]", "{%s d}4", "Sub{%s} r", "l8 q100 %s", "Slur(1) %s", "Slur(2,10) %s"])
             a = wrap % ("'" + " ".join(marked) + "'" + tail) + " n100"; b = wrap % ("'" + " ".join(members) + "'" + tail) + " n100"
             cs.append(dict(req="compile2 %s %s" % (hx(a), hx(b)), src=a, src2=b, show="%s   vs   %s" % (a, b), key="ct%d" % i))
+        # an empty slot after the chord's length (`'ceg'4,,`, `'ce'2,50,`) means "not given": the members keep their own gate / velocity
+        for i in range(400 if big else 60):
+            members = " ".join(rng.choice("cdefgab") + rng.choice(["", "", ",,90", "8"]) for _ in range(rng.randrange(2, 5)))
+            ln = rng.choice(["", "4", "2", "8."])
+            t1, t2 = rng.choice([(",,", ""), (",50,", ",50"), (",,", ""), (", ,", ""), (",100,", ",100")])
+            wrap = rng.choice(["%s", "v80 %s", "[2 %s r8]", "l8 q70 %s"])
+            a = wrap % ("'" + members + "'" + ln + t1) + " n100"; b = wrap % ("'" + members + "'" + ln + t2) + " n100"
+            cs.append(dict(req="compile2 %s %s" % (hx(a), hx(b)), src=a, src2=b, show="%s   vs   %s" % (a, b), key="ce%d" % i))
         return cs
     def ct_judge(c, impl, m):
         st, f = impl
         if st != "ok": return ("violation", "chord program did not compile normally: " + st)
-        if f["bin1"] != f["bin2"]: return ("violation", "a tie mark inside a chord changed the chord: %s vs %s" % (c["src"][:100], c["src2"][:100]))
+        if f["bin1"] != f["bin2"]: return ("violation", "%s changed the chord: %s vs %s" % ("an empty argument slot" if c["key"].startswith("ce") else "a tie mark inside a chord", c["src"][:100], c["src2"][:100]))
         return None
     s3 = Stream("chordtie", cases if (cases and only == "chordtie") else mk_ct(), lambda c, st, f: [], ct_judge,
                 lambda c, i, m: i[1].get("bin1") if i[0] == "ok" else None, "chord with tie marks vs the same chord without", timeout_case=20.0)
